@@ -108,6 +108,19 @@ def mulAux : Nat → Nat → Point → Point → Point
 /-- `[s]P` for `s < 2^512` (every scalar that occurs is below 2^256) -/
 def Point.mul (s : Nat) (P : Point) : Point := mulAux 512 s P Point.zero
 
+/-- `[s1]P1 + [s2]P2` reading the binary digits of both scalars together (Straus / Shamir): one doubling per digit position and one
+    addition of P1, P2 or P12 = P1 + P2 where a digit is set.  Used by the verifiers (`selfTest` compares it with `Point.mul`). -/
+def mul2Aux (P1 P2 P12 : Point) : Nat → Nat → Nat → Point
+  | 0, _, _ => Point.zero
+  | fuel + 1, s1, s2 =>
+    if s1 = 0 ∧ s2 = 0 then Point.zero
+    else
+      let dd := (mul2Aux P1 P2 P12 fuel (s1 / 2) (s2 / 2)).double
+      if s1 % 2 = 1 then (if s2 % 2 = 1 then dd.add P12 else dd.add P1)
+      else (if s2 % 2 = 1 then dd.add P2 else dd)
+
+def Point.mul2 (s1 : Nat) (P1 : Point) (s2 : Nat) (P2 : Point) : Point := mul2Aux P1 P2 (P1.add P2) 512 s1 s2
+
 /-- [8]P = 0 (`is_small_order`) -/
 def Point.smallOrder (P : Point) : Bool := (P.double.double.double).eq Point.zero
 
@@ -122,16 +135,18 @@ def encode (P : Point) : Bytes :=
   let (x, y) := P.affine
   natLE 32 (y + 2 ^ 255 * (x % 2))
 
-/-- x with x² = (y² − 1)/(d y² + 1), by the §5.1.3 candidate-root method; `none` when that is not a square -/
+/-- x with x² = u/v for u = y² − 1, v = d y² + 1, by §5.1.3 step 2–3: the candidate x = u v³ (u v⁷)^((p−5)/8); if v x² = −u
+    multiply by √−1; `none` when u/v is not a square -/
 def recoverX (y : Nat) : Option Nat :=
   let u := fsub (y * y % p) 1
   let v := (d * (y * y % p) + 1) % p
-  let x2 := u * finv v % p
-  let x := powMod p x2 ((p + 3) / 8)
-  if x * x % p == x2 then some x
-  else
-    let x' := x * sqrtM1 % p
-    if x' * x' % p == x2 then some x' else none
+  let v3 := v * v % p * v % p
+  let v7 := v3 * v3 % p * v % p
+  let x := u * v3 % p * powMod p (u * v7 % p) ((p - 5) / 8) % p
+  let vxx := v * (x * x % p) % p
+  if vxx == u then some x
+  else if vxx == fsub 0 u then some (x * sqrtM1 % p)
+  else none
 
 /-- §5.1.3: `none` for y ≥ p, for a non-square, and for x = 0 with the sign bit set -/
 def decodeRfc (b : Bytes) : Option Point :=
@@ -221,7 +236,7 @@ def verifyRfc (pk msg sig : Bytes) : Bool :=
 /-- `ed25519-dalek` `recompute_R`: enc([S]B − [k]A), k = H(R ‖ A ‖ M) over the bytes as given -/
 def recomputeR (A : Point) (pk msg Rb : Bytes) (S : Nat) : Bytes :=
   let k := leNat (sha512 (Rb ++ pk ++ msg)) % L
-  encode ((Point.mul S B).add (Point.mul k A).neg)
+  encode (Point.mul2 S B k A.neg)
 
 /-- `ed25519-dalek` 2.x `VerifyingKey::verify` (cofactorless, no small-order checks); `false` also when `pk` does not decode -/
 def verifyLoose (pk msg sig : Bytes) : Bool :=
@@ -301,6 +316,10 @@ def selfTest : Bool :=
   B.y == 46316835694926478169428394003475163141307993866256225615783033603165251855960 &&
   (Point.mul L B).eq Point.zero && !(Point.mul (L - 1) B).eq Point.zero && !B.smallOrder &&
   toHex (encode B) == "5866666666666666666666666666666666666666666666666666666666666666" &&
+  -- the joint double-and-add agrees with two separate multiplications
+  [(0, 0), (1, 0), (0, 1), (5, 9), (L - 1, 2 ^ 252 + 12345), (2 ^ 255 - 3, L + 77)].all (fun (a, b) =>
+    let Q := Point.mul 987654321 B
+    (Point.mul2 a B b Q).eq ((Point.mul a B).add (Point.mul b Q))) &&
   checkVector "9d61b19deffd5a60ba844af492ec2cc44449c5697b326919703bac031cae7f60"
     "d75a980182b10ab7d54bfed3c964073a0ee172f3daa62325af021a68f707511a" ""
     "e5564300c360ac729086e2cc806e828a84877f1eb8e5d974d873e065224901555fb8821590a33bacc61e39701cf9b46bd25bf5f0595bbe24655141438e7a100b" &&
